@@ -8,6 +8,7 @@ CONSTANTS
   Ticks = TRUE
   Beh = FALSE
   Mut = "stopEarly"
+  AddEv = TRUE
 CHECK_DEADLOCK FALSE
 VIEW View
 PROPERTIES C18_Isolation
